@@ -700,7 +700,7 @@ def stateless_codec(ctx):
     they reach keep no state between two invocations.  Decided on the real AST of types.py on every run:
       * no `global` declaration, no store / augmented assignment / del / mutating-method call whose root is a name that is not
         local to the invocation (module-level objects, and `self`: tcall is one process-wide instance);
-      * no memoising decorator on any of them;
+      * no memoising decorator on any of them, no mutable parameter default (created once per process);
       * every module-level VALUE they read (small_allele_pair) is bound exactly once at module level and is not written through
         anywhere in the module.
     Returns the names of the module-level values read (the native witness search binds exactly these)."""
@@ -750,6 +750,10 @@ def stateless_codec(ctx):
                 problems.append('%s is wrapped by the memoising decorator @%s' % (q, txt))
             else:
                 raise pyvc.Undecided('%s carries the decorator @%s, whose effect on the codec is not modelled' % (q, txt))
+        for d in list(fn.args.defaults) + [d for d in fn.args.kw_defaults if d is not None]:
+            # a default value is created once, when the function is defined: a mutable one is state shared by all invocations
+            if not all(isinstance(x, (pyast.Constant, pyast.Tuple, pyast.UnaryOp, pyast.USub, pyast.UAdd, pyast.Load, pyast.Name, pyast.Attribute)) for x in pyast.walk(d)):
+                problems.append('%s has the parameter default %s, an object shared by all invocations' % (q, pyast.unparse(d)))
         for root, line, what in _writes(fn):
             if root is None:
                 problems.append('%s:%d %s (root is not a name)' % (q, line, what))
